@@ -437,6 +437,80 @@ class Lit:
                     gN(o["extra"]))
 
 
+
+# ------------------------------------------------------------------ composition with C01 (second pass)
+# C15_tracked_programs_valid (coq/props/C15.v) carries C01's validity theorem over to the tracked builder.  Its
+# premises and its conclusion are evaluated (coq/run/C15ValidRun.v) on the tracked-builder programs of C01's own
+# generator (harness/progs.py gen_tracked_program), run on the real TrackedDfg: the theorem must speak about what is
+# generated there, and the document hugr-py serialises must be the one the composed models produce.
+
+def tdfg_to_c15(p):
+    """A tracked-builder program of harness/progs.py -> {"tys", "track", "prog" (C15's language), "ops" (operation
+    description of every added node in creation order)}; None when it uses a call outside the fragment of the
+    theorem (load) or does not end with its only set_*_outputs."""
+    sts = p["stmts"]
+    if not sts or sts[-1]["k"] != "tout" or any(s["k"] == "tout" for s in sts[:-1]):
+        return None
+    if any(s["k"] not in ("tadd", "track", "untrack", "tout") for s in sts):
+        return None
+    wires = {w: (0, j) for j, w in enumerate(p["in_wires"])}
+    track = bool(p.get("track_inputs", True))
+    table = [(0, j) for j in range(len(p["ins"]))] if track else []
+    prog, ops, cnt = [], [], 0
+    if not track:
+        for w in p.get("track_these", []):
+            prog.append(["track_wire", list(wires[w])])
+            table.append(wires[w])
+
+    def A(args):
+        return [a[1] if a[0] == "i" else list(wires[a[1]]) for a in args]
+    for st in sts:
+        k = st["k"]
+        if k == "tadd":
+            op = st["op"]
+            if op[0] != "custom":
+                return None
+            spec = ["custom", len(op[2]), len(op[3]), op[1] + ":" + json.dumps([op[2], op[3]])]
+            args = A(st["args"])
+            n = 2 + cnt
+            cnt += 1
+            ops.append(op)
+            if st.get("via") == "extend":
+                prog.append(["extend", [[spec, args]]])
+            else:
+                prog.append(["add", spec, st.get("md"), args])
+            for j, a in enumerate(st["args"]):
+                if a[0] == "i":
+                    table[a[1]] = (n, j)
+            for j, w in enumerate(st["outs"]):
+                if w is not None:
+                    wires[w] = (n, j)
+        elif k == "track":
+            prog.append(["track_wire", list(wires[st["w"]])])
+            table.append(wires[st["w"]])
+        elif k == "untrack":
+            wires[st["out"]] = table[st["idx"]]
+            table[st["idx"]] = None
+            prog.append(["untrack", st["idx"]])
+        else:
+            prog.append(["set_tracked_outputs"] if st["mode"] == "tracked" else ["set_indexed_outputs", A(st["args"])])
+    return {"tys": p["ins"], "track": track, "prog": prog, "ops": ops}
+
+
+def tdfg_literal(L, p, t):
+    """the TCase literal of coq/run/C15ValidRun.v: runs p on the real TrackedDfg (through C01's interpreter), takes
+    the document it serialises and interns the types of the program in the document's type table"""
+    from props import c01
+    d1, _ = c01.build_docs(p)
+    c = c01.conv_doc(c01.strip_doc(d1))
+    tab = c["tab"]
+    ins = [tab.ty(c01.ser_ty(x)) for x in t["tys"]]
+    specs = [gapp("OFixed", c01.grow([tab.ty(c01.ser_ty(x)) for x in op[2]]),
+                  c01.grow([tab.ty(c01.ser_ty(x)) for x in op[3]])) for op in t["ops"]]
+    tab.recompute_copy()
+    return gapp("TCase", c01.gtab(tab), c01.grow(ins), glist(specs), gbool(t["track"]),
+                glist(L.cmd(x) for x in t["prog"]), c01.ggraph(c["main"]))
+
 # ------------------------------------------------------------------ generator
 
 META_KEYS = ["name", "loc", "k", "unicode-é", ""]
@@ -696,7 +770,10 @@ class C15(fw.Prop):
             "TrackedDfg (Case2: both observations are monitored); 40% of the other streams get alias flags "
             "too.  non-trivial = an "
             "integer argument is used after an earlier add rebound it, or a hole exists, or metadata is given, "
-            "or the run ends in an exception")
+            "or the run ends in an exception.  Second pass (extra): 150 / 1500 tracked-builder programs of C01's "
+            "generator (harness/progs.py gen_tracked_program) run on the real TrackedDfg; those without load are "
+            "translated to this property's language and the premises (wf_prog of the explicit translation, twf) and the "
+            "conclusion (Builder.run == hugr-py's document, valid) of C15_tracked_programs_valid are evaluated in Coq")
     trusted = ["node naming by creation order: the harness maps names to the Node handles the builders return",
                "operations are observed through _to_serial(...).model_dump_json() plus the node's port counts; "
                "metadata values through json.dumps",
@@ -705,7 +782,10 @@ class C15(fw.Prop):
                "object reuse (case['alias']) is realised by the harness: the plain builder gets its own objects "
                "with the tracked side's operation-sharing pattern; partial operations are not shared in programs "
                "with an UnpackTuple command"]
-    assumptions = ["one flat dataflow region (all wires are siblings); wires name nodes by creation order"]
+    assumptions = ["one flat dataflow region (all wires are siblings); wires name nodes by creation order",
+                   "composition with C01: the typed operation descriptions (specs) and the type table are supplied by "
+                   "the harness (C01's Tab interning of the serialised document); load / nested regions are outside the "
+                   "fragment of C15_tracked_programs_valid"]
 
     def __init__(self):
         self.I = fw.Interner()
@@ -751,6 +831,11 @@ class C15(fw.Prop):
                       ["add", ["maketuple"], None, [[0, 0]]]]},
             {"tys": ["Q"], "track": True, "alias": ["meta", "again"],
              "prog": [["add", c, {"name": [1, {"a": None}]}, [0]], ["add", c, {"name": [1, {"a": None}]}, [0]]]},
+            # second pass: the same index / wire several times among the outputs (copyable values), mixed with wires
+            {"tys": ["B", "B"], "track": True, "prog": [["set_indexed_outputs", [0, 0, [0, 1], 1, [0, 0]]]]},
+            {"tys": ["B", "Q"], "track": True,
+             "prog": [["add", ["custom", 1, 2, "m"], None, [1]], ["track_wire", [2, 1]],
+                      ["set_indexed_outputs", [2, 1, [2, 1], 0, 2]]]},
             {"tys": ["Q", "B"], "track": False, "alias": ["iter", "again"],
              "prog": [["track_wires", [[0, 1], [0, 0]]], ["add", c, None, [1]], ["track_wires", []], ["set_tracked_outputs"]]},
         ]
@@ -866,6 +951,96 @@ class C15(fw.Prop):
             cut = rng.randint(0, len(c["prog"]))
             c["prog"] = c["prog"][:cut] + extra[: rng.randint(1, 4)]
             out.append(c)
+        return out
+
+    def _composition(self, ctx, sample, tag):
+        """-> (findings [(kind, description, signature, seed, program, c15 program, message)], statistics) of the
+        premises (tprem, ttwf) and of the conclusion against the real TrackedDfg (ttie, tvalid) on a sample"""
+        from props import c01
+        found, lits, meta, outside, raised = [], [], [], 0, 0
+        for seed, p in sample:
+            t = tdfg_to_c15(p)
+            if t is None:
+                outside += 1
+                continue
+            try:
+                lits.append(tdfg_literal(self.L, p, t))
+            except c01.ConvError:
+                raise
+            except Exception as e:      # a builder call raised on a program C01's generator believes well formed
+                raised += 1
+                found.append(("tracked-builder-raises", "a tracked-builder program of C01's generator (well formed: such "
+                              "programs satisfy the premises on clean code) made a builder call raise " + type(e).__name__,
+                              "composition:raises:" + type(e).__name__, seed, p, t, str(e)[:300]))
+                continue
+            meta.append((seed, p, t))
+        st = {"generated": len(sample), "outside_fragment(load)": outside, "builders_raised": raised, "evaluated": len(lits)}
+        if lits:
+            res = fw.eval_cases(ctx.work, "run.C15ValidRun", lits, shard=40, checks=("tprem", "ttie", "tvalid", "ttwf"),
+                                tag=tag, case_type="tcase")
+            st["premises_hold"] = len(lits) - len(res["tprem"])
+            st["tracked_level_premise_twf_holds"] = len(lits) - len(res["ttwf"])
+            for i in res["tvalid"]:
+                found.append(("tracked-document-invalid", "the document a real TrackedDfg serialised is rejected by the "
+                              "validity predicate", "composition:invalid", *meta[i], ""))
+            for i in [j for j in res["ttie"] if j not in res["tvalid"]]:
+                found.append(("tracked-document-differs", "the document a real TrackedDfg serialised is not the one C01's "
+                              "builder model produces from the explicit translation / not the tracked model's HUGR",
+                              "composition:document-differs", *meta[i], ""))
+            for i in res["tprem"]:
+                found.append(("premise-not-met", "a tracked-builder program of C01's generator inside the fragment does "
+                              "not satisfy the premises of C15_tracked_programs_valid (the theorem would not speak about "
+                              "it)", "composition:premise-not-met", *meta[i], ""))
+            for i in [j for j in res["ttwf"] if j not in res["tprem"]]:
+                found.append(("premise-not-met", "a tracked-builder program of C01's generator inside the fragment is "
+                              "not accepted by the tracked-level premise twf of C15_wellformed_tracked_programs_valid",
+                              "composition:twf-not-met", *meta[i], ""))
+        return found, st
+
+    def extra(self, ctx, tier):
+        """C15 x C01: the premises (tprem, ttwf) and the conclusion against the real TrackedDfg (ttie, tvalid) of
+        C15_tracked_programs_valid / C15_wellformed_tracked_programs_valid on the tracked-builder programs of C01's
+        generator (harness/progs.py), run on the real TrackedDfg through C01's interpreter."""
+        import random
+        import progs
+        from props import c01
+        ok, log = fw.coq_build(["run/C15ValidRun.vo"])
+        if not ok:
+            return [("composition-run-file", "coq/run/C15ValidRun.v does not build", {"log": log[-1500:]})]
+        bad = fw.forbidden_gate(fw.coq_closure("run/C15ValidRun.v"))
+        if bad:
+            return [("composition-run-file", "forbidden construct in the closure of run/C15ValidRun.v", {"bad": bad[:5]})]
+        rng = random.Random(ctx.seed * 7907 + 15)
+        n = 150 if tier == "quick" else 1500
+        sample = [("named:" + k, v) for k, v in sorted(c01.NAMED.items()) if v.get("root") == "tdfg"]
+        for _ in range(n):
+            seed = rng.randrange(1 << 30)
+            sample.append(({"seed": seed}, progs.gen_tracked_program(random.Random(seed))))
+        found, st = self._composition(ctx, sample, "tvalid")
+        if found:
+            # look for smaller programs showing the same kind of failure: the replay should be readable
+            small = []
+            for size in (1, 2, 3):
+                for _ in range(60):
+                    seed = rng.randrange(1 << 30)
+                    small.append(({"seed": seed, "size": size}, progs.gen_tracked_program(random.Random(seed), size=size)))
+            try:
+                found2, _ = self._composition(ctx, small, "tvalid_small")
+            except fw.CoqEvalError:
+                found2 = []
+            found2.sort(key=lambda f: len(f[4]["stmts"]))
+            found = found2 + found
+        out, per_sig = [], {}
+        for kind, desc, sig, seed, p, t, msg in found:
+            if per_sig.get(sig, 0) >= 2:
+                continue
+            per_sig[sig] = per_sig.get(sig, 0) + 1
+            out.append((kind, desc, {"failing_input": seed, "signature": sig, "program": p, "c15_program": t,
+                                     **({"message": msg} if msg else {})}))
+        if st["evaluated"] < st["generated"] // 4:
+            out.append(("composition-sample-too-small", "fewer than a quarter of the generated tracked programs are in "
+                        "the fragment of C15_tracked_programs_valid", dict(st)))
+        ctx.stats["composition_with_C01"] = st
         return out
 
     def distribution(self, cases, observations):
